@@ -203,6 +203,16 @@ class VectorParameter(_Parameter):
         _CheckIsVector(value)
 
 
+class UnitVectorParameter(VectorParameter):
+    """A direction: whatever the length of the given vectors, unit vectors are stored."""
+
+    def __set__(self, instance, value):
+        self._checker(value)
+        from ..FEM._linalg import Normalize
+
+        super().__set__(instance, Normalize(value))
+
+
 class InstanceParameter(_Parameter):
 
     def __init__(self, check_functions: list[Callable] = []):
